@@ -166,6 +166,14 @@ M += [
  ('r7_self_connect', [('plonky2/src/hash/merkle_proofs.rs', '        self.connect_hashes(x.circuit_digest, y.circuit_digest);', '        self.connect_hashes(x.circuit_digest, x.circuit_digest);')], ['C02'], 'R02.11'),
 ]
 
+BEHAVIOUR_PRESERVING += [
+ ('bp_cyclic_connect_swapped_sides', [('plonky2/src/recursion/cyclic_recursion.rs', '            inner_cyclic_pis.circuit_digest,\n            verifier_data.circuit_digest,\n        );', '            verifier_data.circuit_digest,\n            inner_cyclic_pis.circuit_digest,\n        );')], ['C20'], None),
+ ('bp_key_oracle_literal_false', [('plonky2/src/plonk/circuit_builder.rs', '                PlonkOracle::CONSTANTS_SIGMAS.blinding,\n                cap_height,', '                false,\n                cap_height,')], ['C19', 'C06'], None),
+ ('bp_packed_read_commuted', [('plonky2/src/fri/oracle.rs', '            .map(|i| self.get_lde_values(index_start + i, step))', '            .map(|j| self.get_lde_values(j + index_start, step))')], ['C19'], None),
+ ('bp_strategy_encoder_loop', [('plonky2/src/fri/reduction_strategies.rs', '            FriReductionStrategy::Fixed(reduction_arity_bits) => core::iter::once(F::ZERO)\n                .chain(\n                    reduction_arity_bits\n                        .iter()\n                        .map(|&x| F::from_canonical_usize(x)),\n                )\n                .collect(),', '            FriReductionStrategy::Fixed(reduction_arity_bits) => {\n                let mut out = vec![F::ZERO];\n                for &x in reduction_arity_bits {\n                    out.push(F::from_canonical_usize(x));\n                }\n                out\n            }')], ['C04'], None),
+ ('bp_keccak_permute_iter_state', [('plonky2/src/hash/keccak.rs', '        for i in 0..SPONGE_WIDTH {\n            state_bytes[i * size_of::<u64>()..(i + 1) * size_of::<u64>()]\n                .copy_from_slice(&self.state[i].to_canonical_u64().to_le_bytes());\n        }', '        for (i, x) in self.state.iter().enumerate() {\n            state_bytes[i * size_of::<u64>()..(i + 1) * size_of::<u64>()]\n                .copy_from_slice(&x.to_canonical_u64().to_le_bytes());\n        }')], ['C13', 'C04'], None),
+]
+
 def run(name, subs, checks):
     args = [os.path.join(V, 'selftest', 'mutrun.py')]
     for f, o, n in subs:
